@@ -44,7 +44,12 @@ func main() {
 		w := bufio.NewWriterSize(os.Stdout, 1<<20)
 		for i := from; i < to; i++ {
 			fmt.Fprintf(os.Stderr, "SCENARIO %d\n", i)
-			r := runScenario(i, base*1000003+int64(i))
+			var r ScenarioResult
+			if os.Getenv("RPCH_MODE") == "gatewalk" {
+				r = runGateWalk(i, base*1000003+int64(i))
+			} else {
+				r = runScenario(i, base*1000003+int64(i))
+			}
 			b, _ := json.Marshal(r)
 			w.Write(b)
 			w.WriteByte('\n')
